@@ -177,6 +177,19 @@ Ltac wrongclass :=
   | E : request_body _ _ = Ok _ |- _ => apply request_body_class in E; vm_compute in E; discriminate E
   end.
 
+Lemma rekey_update_exc : forall pch k e e' d x,
+  guard H_put_elem_update (rekey_update pch k e e') d = Exc x -> good x = true.
+Proof.
+  intros pch k e e' d x H. unfold rekey_update in H.
+  repeat (bm; try discriminate); vm_compute in H; done H.
+Qed.
+Lemma send_file_exc : forall s r ct c e, send_file s r ct c = Exc e -> good e = true.
+Proof. intros s r ct c e H. unfold send_file in H. destruct (sendable ct); [discriminate|]. vm_compute in H. done H. Qed.
+Lemma send_file_ok : forall s r ct c s' resp, send_file s r ct c = Ok (s', resp) -> status resp = 200 /\ s' = s.
+Proof.
+  intros s r ct c s' resp H. unfold send_file in H. destruct (sendable ct); [now inversion H|]. vm_compute in H. discriminate.
+Qed.
+
 Definition needs_path (ep : endpoint) : bool :=
   match ep with
   | ep_get_submodel_submodel_elements_id_short_path | ep_get_submodel_submodel_elements_id_short_path_metadata
@@ -200,6 +213,8 @@ Ltac leaf :=
   | E : get_submodels _ _ = Exc _ |- _ => now apply get_submodels_exc in E
   | E : resolve_sm _ _ = Exc _ |- _ => now apply resolve_sm_exc in E
   | E : get_sm_ref _ _ = Exc _ |- _ => now apply get_sm_ref_exc in E
+  | E : send_file _ _ _ _ = Exc _ |- _ => now apply send_file_exc in E
+  | E : guard _ (rekey_update _ _ _ _) _ = Exc _ |- _ => now apply rekey_update_exc in E
   | E : guard _ (store_add _ _) _ = Exc _ |- _ => apply store_add_exc in E; [exact E | tauto]
   | E : guard _ (add_referable _ _ _) _ = Exc _ |- _ => now apply add_referable_exc in E
   | E : guard H_ns_op (remove_referable _ _) _ = Exc _ |- _ => now apply remove_referable_exc in E
@@ -236,6 +251,8 @@ Proof.
   intros ep s r s' resp H.
   destruct ep; cbn [handler endpoint_name] in H; unfold bind, ok, http in H.
   all: repeat (bm; try discriminate).
+  all: try (match goal with E : send_file _ _ _ _ = Ok _ |- _ =>
+              apply send_file_ok in E; destruct E as [E _]; unfold ok_status; rewrite E; tauto end).
   all: try (inversion H; subst; clear H).
   all: rewrite ?status_respond, ?status_respond_list; unfold ok_status; try (vm_compute; tauto).
 Qed.
@@ -264,12 +281,20 @@ Lemma route_error_status : forall r cls, mem_s cls client_errors = true ->
   400 <= status (error_response r (EHttp cls)) < 500.
 Proof. intros r cls G. exact (proj1 (error_good r (EHttp cls) G)). Qed.
 
+(* bind_to_environ sits inside the try block of handle_request: BadHost is converted like any HTTPException *)
+Lemma bind_caught : catch H_bind (EHttp "BadHost") = Swallowed.
+Proof. vm_compute. reflexivity. Qed.
+Lemma badhost_response : forall r,
+  status (error_response r (EHttp "BadHost")) = 400 /\ pay (error_response r (EHttp "BadHost")) = PResult "BadHost".
+Proof. intros r. vm_compute. split; reflexivity. Qed.
+
 Theorem no_5xx_partial : forall s r, own_ids s -> req_ok r ->
   status (snd (handle s r)) < 500 \/
   (status (snd (handle s r)) = 501 /\ unimplemented (r_rule r) (r_meth r) = true).
 Proof.
   intros s r W RO. unfold handle, unimplemented.
   destruct (r_accept r) eqn:A; try (left; cbn [snd status]; lia).
+  all: destruct (r_badhost r); [rewrite bind_caught; left; cbn [snd]; rewrite (proj1 (badhost_response r)); lia|].
   all: destruct (find_route routes (r_rule r) (r_meth r) false) eqn:F.
   all: try (left; unfold http; cbv beta iota; cbn [snd]; apply route_error_status; reflexivity).
   all: unfold bind; destruct (convert_args r) as [u|ce] eqn:C;
@@ -288,6 +313,7 @@ Lemma handle_cases : forall s r,
 Proof.
   intros s r. unfold handle.
   destruct (r_accept r); try (left; reflexivity).
+  all: destruct (r_badhost r); [rewrite bind_caught; right; right; eexists; reflexivity|].
   all: destruct (find_route routes (r_rule r) (r_meth r) false) eqn:F;
     try (right; right; eexists; reflexivity).
   all: unfold bind; destruct (convert_args r); [|right; right; eexists; reflexivity].
@@ -319,7 +345,7 @@ Definition Q0 : query := {| q_limit := QAbsent; q_cursor := QAbsent; q_core := f
                             q_assetids := []; q_semid := None |}.
 Definition rq (rule : string) (m : meth) (sm : idarg) (b : body) : request :=
   {| r_rule := rule; r_meth := m; r_accept := AccJson; r_aas := IdAbsent; r_sm := sm; r_cd := IdAbsent;
-     r_qt := IdAbsent; r_path := PathAbsent; r_query := Q0; r_body := b |}.
+     r_qt := IdAbsent; r_path := PathAbsent; r_query := Q0; r_body := b; r_badhost := false |}.
 Definition sm_doc (i : ident) : value :=
   VSm {| sm_id := i; sm_ids := Some 7; sm_tok := 1; sm_quals := []; sm_ch := [] |}.
 Definition rename_history : list request :=
@@ -699,6 +725,8 @@ Proof.
   clear PM BM0.
   destruct ep; cbn [handler endpoint_name] in H; unfold bind, ok, http, guard in H; try specialize (BM eq_refl).
   all: repeat (bm2; try discriminate).
+  all: try (match goal with E : send_file _ _ _ _ = Ok _ |- _ =>
+              apply send_file_ok in E; destruct E as [_ E]; subst; exact W end).
   all: try (inversion H; subst; clear H).
   all: try exact W.
   all: repeat (ownstep W).
@@ -711,6 +739,7 @@ Theorem own_ids_step : forall s r, own_ids s -> body_id_matches r -> own_ids (fs
 Proof.
   intros s r W BM. unfold handle.
   destruct (r_accept r); try exact W.
+  all: destruct (r_badhost r); [destruct (catch H_bind (EHttp "BadHost")); exact W|].
   all: destruct (find_route routes (r_rule r) (r_meth r) false) eqn:F; try exact W.
   all: unfold bind; destruct (convert_args r); try exact W.
   all: destruct (handler e s r) as [[s' resp]|x] eqn:H; try exact W.
